@@ -410,6 +410,14 @@ class RealSession:
         return x
 
 
+class TableMismatch(Exception):
+    """the hooks a fresh converter is born with are not the registrations its source makes (one had no effect, or was made twice)"""
+
+    def __init__(self, direction, source_names, real_names):
+        super().__init__(f"source registers {len(source_names)} {direction} predicates, a fresh Converter() has {len(real_names)}")
+        self.direction, self.source_names, self.real_names = direction, source_names, real_names
+
+
 def init_truth_tables(pool: Pool, t1_summary: dict):
     """Truth table of every predicate a converter is born with, indexed as T1 indexes them
     (source order: BaseConverter entries, then Converter entries), for both directions."""
@@ -422,7 +430,7 @@ def init_truth_tables(pool: Pool, t1_summary: dict):
         names = [e["pred"] for e in t1_summary["converters"]["base_tables"][d]["func"]] + \
                 [e["pred"] for e in t1_summary["converters"]["conv_regs"][d]]
         if len(names) != len(src_order):
-            raise RuntimeError(f"T1 table for {d} has {len(names)} entries, the real converter {len(src_order)}")
+            raise TableMismatch(d, names, [getattr(p_[0], "__name__", "?") for p_ in src_order])
         tbl = {}
         for i, (name, pair) in enumerate(zip(names, src_order)):
             fn = pair[0]
